@@ -82,6 +82,15 @@ def main():
     live = []
     n_witness = 0
     for fnd in findings:
+        if fnd.get('witness_script'):
+            p = subprocess.run([VENV_PY, os.path.join(VERIF, fnd['witness_script'])], env=dict(os.environ, PYTHONPATH=REPO),
+                               cwd='/tmp', capture_output=True, text=True, timeout=300)
+            n_witness += 1
+            with open(os.path.join(VERIF, 'replays', prop, 'known-%s.log' % fnd.get('id')), 'w') as fh:
+                fh.write('exit=%d\n%s\n%s' % (p.returncode, p.stdout[-2000:], p.stderr[-2000:]))
+            if p.returncode == 1:
+                live.append(fnd)
+            continue
         wfile = os.path.join(VERIF, 'replays', prop, 'known-%s.json' % fnd.get('id'))
         rp = dict(fnd['witness_replay'], property=prop, obligation=fnd['obligation'], modules=modules, finding=fnd.get('id'))
         with open(wfile, 'w') as fh:
